@@ -50,7 +50,22 @@ def check_token_first(ctx, V):
            ok, f'calls: {[src(c) for c in calls]}')
     f = repo.func('sqlparse.sql.TokenList.token_first')
     m = f.nested.get('matcher')
-    ctx.need(m is not None, 'TokenList.token_first no longer defines a matcher closure')
+    factory_env = {}
+    if m is None:
+        # matcher = <factory>(skip_ws, skip_cm): the closure returned by a module-level factory
+        from ..astutil import local_defs
+        from ..cg import get_cg
+        cg = get_cg(ctx)
+        for d in local_defs(f.node).get('matcher', []):
+            if isinstance(d, ast.Call):
+                for cq in cg.callees_of_call(f.qname, d):
+                    fac = repo.funcs[cq]
+                    rets_ = [r for r in own_nodes(fac.node, include_lambdas=False) if isinstance(r, ast.Return) and is_name(r.value)]
+                    if rets_ and rets_[0].value.id in fac.nested:
+                        m = fac.nested[rets_[0].value.id]
+                        for pn, a in zip(fac.params, d.args):
+                            factory_env[pn] = src(a)
+    ctx.need(m is not None, 'TokenList.token_first no longer defines (or obtains from a factory) a matcher closure')
     rets = [n for n in own_nodes(f.node, include_lambdas=False) if isinstance(n, ast.Return)]
     ok = len(rets) == 1 and src(rets[0].value) in ('self._token_matching(matcher)[1]',)
     ctx.ob('R18.1', 'token_first:uses-matcher', f'{f.mod.relpath}:{f.node.lineno}', 'token_first returns the first child accepted by the matcher (scan from index 0)', ok,
@@ -62,6 +77,8 @@ def check_token_first(ctx, V):
         is_comment = (k.ttype is not None and COMMENT.contains(k.ttype)) or (k.cls is not None and k.cls.name == 'Comment')
         want = not (k.is_whitespace or is_comment)
         env = {'skip_ws': True, 'skip_cm': True, m.params[0]: k}
+        for pn, an in factory_env.items():
+            env[pn] = True if an in ('skip_ws', 'skip_cm') else env.get(pn, True)
         try:
             got = bool(ME.run_function(ev, m.node, env))
         except (ME.Unknown, ME.Unsupported) as e:
